@@ -157,7 +157,7 @@ def run_verus_once(path, extra, timeout):
         if not l.startswith('{'): continue
         try: d = json.loads(l)
         except Exception: continue
-        if d.get('level') == 'error' and d.get('spans') and (d.get('code') or re.search(r'not supported|unsupported|Could not automatically infer triggers|trigger does not cover|use of moved value|cannot find|mismatched types|expected|unresolved|borrow', d['message'])):
+        if d.get('level') == 'error' and d.get('spans') and (d.get('code') or re.search(r'not supported|unsupported|not yet support|not allowed|is not implemented|Could not automatically infer triggers|trigger does not cover|use of moved value|cannot find|mismatched types|expected|unresolved|borrow', d['message'])):
             # a rustc / Verus front-end error: the assembled text does not compile on this tree (unsupported construct or misplaced ghost code): never a property violation
             sp0 = d['spans'][0]
             hard.append('the assembled text is rejected before verification: %s (assembled line %d: %s)' % (d['message'], sp0['line_start'], (sp0['text'][0]['text'].strip()[:120] if sp0.get('text') else '')))
@@ -192,7 +192,7 @@ def run_unit(name, tier='quick', use_cache=True, extra_args=(), log=print, degra
     args = ['--rlimit', rlimit] + list(extra_args)
     for vm in cfg.get('verify_only', []): args += ['--verify-module', vm]
     if cfg.get('compile'): args += ['--compile', '-o', os.path.join(BUILD, 'bin_%s' % name), '-C', 'opt-level=2']
-    key = hashlib.sha256((asm.text + '\0' + ' '.join(args) + '\0v4').encode()).hexdigest()[:24]
+    key = hashlib.sha256((asm.text + '\0' + ' '.join(args) + '\0v5').encode()).hexdigest()[:24]
     cpath = os.path.join(CACHE, '%s-%s.json' % (name, key))
     obls, marks = obligations_of(asm.text, asm.items, cfg)
     if cfg.get('verify_only'):
@@ -262,7 +262,7 @@ def run_unit(name, tier='quick', use_cache=True, extra_args=(), log=print, degra
                              marker_line=mk[0] if mk else None, label=label or ((mk[2] + ' of ' if mk and mk[2] else '') + 'implicit obligations of %s' % (it['key'] if it else '?')),
                              tags=tags, attr=attr, rlimit=rl, line=primary['line_start'], text=primary['text'][:300],
                              clause=(clause['text'][:300] if clause else None), rendered=d.get('rendered', '')[:3000],
-                             item_changed=bool(it and it.get('changed_tokens'))))
+                             item_changed=bool(it and it.get('changed_tokens')), item_structural=bool(it and (it.get('changed_tokens') or 0) < 0)))
     # degraded retry: front-end errors located only in items whose code differs from the pinned text -> assume those items' contracts
     if res.get('hard') and res.get('hard_lines') and not degrade_items:
         bad = set()
